@@ -65,7 +65,7 @@ META = {
         design="DESIGN.md section 4, C17"),
     "C18": dict(
         technique="property-based testing (rapidcheck) of the gwb-grid executable: generated world + grid file, VTU reader, reference lattice per grid type, library values at the lattice nodes, recomputation of the filtered / by-tag cell sets",
-        text="Cartesian and chunk grids in 2D/3D, annulus, sphere; bounds, cell counts, compositions, -j, --filtered/--by-tag, grid files re-styled (line order, comment lines, zero-padded counts, bounds in exponent notation, trailing commas), every vtu_output_format (ASCII, Base64Inline, Base64Appended, RawBinary, RawBinaryCompressed, absent) read by an independent VTK-XML reader (base64, appended offsets, zlib blocks). Well-formed mesh, node multiset equals the requested lattice, cell count, Depth, every node value equals the library's answer, filtered/by-tag files contain exactly the selected cells with unchanged node values.",
+        text="Cartesian and chunk grids in 2D/3D, annulus, sphere; bounds, cell counts, compositions, -j, --filtered/--by-tag, --resolution-limit (counts capped), grid files re-styled (line order, comment lines, zero-padded counts, bounds in exponent notation, trailing commas), every vtu_output_format (ASCII, Base64Inline, Base64Appended, RawBinary, RawBinaryCompressed, absent) read by an independent VTK-XML reader (base64, appended offsets, zlib blocks). Well-formed mesh, node multiset equals the requested lattice, cell count, Depth, every node value equals the library's answer, filtered/by-tag files contain exactly the selected cells with unchanged node values.",
         note="ASCII output (6 digits): 2e-5 relative tolerance, boundary-ambiguous nodes skipped. Sphere grids: the block mapping is not re-derived; asserted are the counts of a closed shell mesh (12 nx^2 nz cells, (12 nx^2+2)(nz+1) nodes), equally spaced radii, every cell between two consecutive shells and a solid angle of 4 pi per layer.",
         design="DESIGN.md section 4, C18"),
     "C20": dict(
